@@ -179,7 +179,11 @@ impl Family for B2 {
         let sb = Sandbox::new("b2");
         let later = matches!(s.cause, Cause::LaterChunkCorrupt(_) | Cause::LaterChunkTruncated(_) | Cause::TrailingData(2));
         // plaintext: three chunks when a later chunk must fail, small otherwise
-        let pt = if later { r.bytes(2 * CHUNK + 1000) } else { { let n = 200 + r.usize_below(500); r.bytes(n) } };
+        // for later-chunk failures the plaintext is sometimes all zeros or chunk-header-like (sparse
+        // files, disk images): what is written must not depend on its content
+        let pt = if later {
+            crate::ops::Plain { len: 2 * CHUNK + 1000, fill_seed: r.next_u64() }.bytes()
+        } else { { let n = 200 + r.usize_below(500); r.bytes(n) } };
         let (e, payload) = (r.arr32(), r.arr32());
         let fsalt = Rng::new(s.seed % 16).arr32();
         let key_file = |pt: &[u8]| {
@@ -293,7 +297,13 @@ impl Family for B2 {
         let out_arg = match s.cause {
             _ if in_is_out => "input.bin",
             Cause::OutputDirMissing => "no-such-dir/output.bin",
-            Cause::OutputIsDirectory => "a-directory",
+            Cause::OutputIsDirectory => match s.variant % 5 {
+                0 => "a-directory",
+                1 => ".",
+                2 => "..",
+                3 => "a-directory/..",
+                _ => "a-directory/",
+            },
             _ => out_name,
         };
         if s.cause == Cause::OutputIsDirectory {
